@@ -151,6 +151,13 @@ func c14DomWith(n int, withRecover bool, maxOut int, draw func(int) int) {
 	vassert(blocks[a].Dominates(blocks[b]) == flat[a*n+b], "Dominates(a,b) iff every path from the region root to b passes through a")
 
 	// consistency of Idom, Dominees and the listings with the relation
+	// the listings are the caller's to keep: reordering what one call returned
+	// must not disturb the next call
+	for _, l := range [][]*BasicBlock{fn.DomPreorder(), fn.DomPostorder()} {
+		for i, j := 0, len(l)-1; i < j; i, j = i+1, j-1 {
+			l[i], l[j] = l[j], l[i]
+		}
+	}
 	pre := fn.DomPreorder()
 	post := fn.DomPostorder()
 	preIdx := make([]int, n)
